@@ -158,8 +158,20 @@ def check(scratch, a, t0):
     elif deviations:
         for d in deviations[:5]:
             log("REAL DEVIATION not predicted by the encoding:", d[0], d[1], json.dumps(d[3])[:400])
-        code = V.EXIT_INCONCLUSIVE
         print("INCONCLUSIVE property=C11 real_deviations=%d (the encoding predicts none)" % len(deviations))
+        # a real multi-module program that contradicts the observable contract of C11 is a violation demonstrated on the real code,
+        # although it lies outside the solver's part (compiler side, file loading)
+        seen = set()
+        for d in deviations:
+            if d[0] in seen:
+                continue
+            seen.add(d[0])
+            payload = {"property": "C11", "fn": "real-suite", "arm": d[0], "class": "real-program-deviates", "profile": "dev", "detail": d[1], "real_deviations": [d]}
+            p = V.save_replay("C11", "real_%s" % d[0][:40], payload)
+            print("VIOLATION property=C11 replay=%s" % p)
+            print("   real program `%s` (%s) deviates from the contract: %s" % (d[0], d[1], json.dumps(d[3])[:300]))
+            new.append(payload)
+        code = V.EXIT_VIOLATION
     if qs.undecided and code == V.EXIT_OK:
         code = V.EXIT_INCONCLUSIVE
         print("INCONCLUSIVE property=C11 undecided=%d" % len(qs.undecided))
